@@ -50,7 +50,10 @@ fn scenario(rng: &mut StdRng, kind: &str, work: &PathBuf, cfg: &MdkConfig) -> (W
     w.add_client("c3", "mem");
     w.add_client("c4", "mem");
     let g = "g1";
-    let v_admin = rng.gen_bool(0.5);
+    // kinds may force a variant: "proposal_admin" (the victim is an admin and auto-commits), "own_merge" / "own_echo",
+    // "merge_data" (the victim merges a commit of its own that changes the group data)
+    let (kind, variant) = match kind.split_once('_') { Some((k, v)) => (k, v), None => (kind, "") };
+    let v_admin = match variant { "admin" | "data" => true, "member" => false, _ => rng.gen_bool(0.5) };
     let admins: Vec<String> = if v_admin { vec!["c1".into(), V.into()] } else { vec!["c1".into()] };
     let mut trace: Vec<Value> = vec![];
     trace.push(w.op_create("c1", g, &[V.to_string(), "c3".to_string()], &admins));
@@ -106,7 +109,14 @@ fn scenario(rng: &mut StdRng, kind: &str, work: &PathBuf, cfg: &MdkConfig) -> (W
         "own" => {
             clock += 1;
             vops.push(json!({"op":"Commit","c":V,"g":g,"kind":"self_update","arg":"","ts":clock,"rank":6}));
-            if rng.gen_bool(0.5) { vops.push(json!({"op":"Merge","c":V,"g":g})); } else { vops.push(json!({"op":"DeliverOwnPending","c":V})); }
+            let merge = match variant { "merge" => true, "echo" => false, _ => rng.gen_bool(0.5) };
+            if merge { vops.push(json!({"op":"Merge","c":V,"g":g})); } else { vops.push(json!({"op":"DeliverOwnPending","c":V})); }
+        }
+        "merge" => {
+            // the victim (an admin) changes name and relays, merges its commit, then a message of another member arrives
+            clock += 1;
+            vops.push(json!({"op":"Commit","c":V,"g":g,"kind":"rename","arg":"nmV","ts":clock,"rank":6}));
+            vops.push(json!({"op":"Merge","c":V,"g":g}));
         }
         "welcome" => {
             // the victim is removed and re-invited: process_welcome / accept_welcome
@@ -268,7 +278,10 @@ pub fn run_crash(out: &str, seed: u64, stride: u64, kinds: &[&str]) {
             for k in 1..=t {
                 let lab = labels[j].get((k - 1) as usize).cloned().unwrap_or_default();
                 let named = !lab.contains(".rs:") || k == 1 || k == t;
-                if stride > 1 && k % stride != 1 && !named { continue; }
+                // crash points that differ only by reads leave the same durable prefix: with stride > 1 every tick
+                // just before a write (and every transaction-internal tick) is still taken, reads are sampled
+                let before_write = lab.ends_with(" W");
+                if stride > 1 && k % stride != 1 && !named && !before_write { continue; }
                 // fresh copy of the database as it was before op j
                 let cdir = tempfile::tempdir().expect("tmp");
                 let cdb = cdir.path().join("mdk.db");
